@@ -217,10 +217,13 @@ def _handle_transient_retry(
 ) -> None:
     """Handle transient error with retry."""
     next_attempt = current_attempts + 1
-    delay = get_backoff_fn(stage, task_model, message, next_attempt + 1)
+    # message.attempts arrives 1-based from the queue, so next_attempt already is
+    # the number of the upcoming delivery attempt.
+    delay = get_backoff_fn(stage, task_model, message, next_attempt)
 
-    # Create new message with incremented attempt count
-    retry_message = message.copy_with_attempts(next_attempt)
+    # The retry carries the attempts used so far; the queue adds one when it
+    # delivers the message, which makes the next delivery attempt next_attempt + 1.
+    retry_message = message.copy_with_attempts(current_attempts)
 
     # Check for context_update from TransientError (stateful retries)
     # Note: bulkman wraps exceptions in BulkheadError, so we need to
